@@ -97,7 +97,7 @@ def file_bodies(draw):
     names = draw(gen.names_for(len(seqs), max_len=20, long_names=False))
     if mode == "longname":
         k = draw(st.integers(0, len(names) - 1))
-        names[k] = names[k] + "L" * draw(st.sampled_from([250, 255, 256, 300, 5000, 20000]))
+        names[k] = names[k] + "L" * draw(st.sampled_from([250, 255, 256, 300, 330, 400, 1000, 5000, 20000]))
     if mode == "oddletters":
         rnd = random.Random(draw(st.integers(0, 2 ** 16)))
         odd = "XJOUBZxjoubz"
@@ -134,7 +134,7 @@ def option_vectors(draw):
         return draw(st.sampled_from(good)) if draw(st.integers(0, 3)) != 0 else draw(st.sampled_from(bad))
     if draw(st.integers(0, 2)) == 0:
         a += ["--type", val(["dna", "rna", "internal", "protein", "divergent"], ["foo", "", "DNA", "dnarna", "proteininternal", "x" * 300])]
-    if draw(st.integers(0, 2)) == 0:
+    if draw(st.integers(0, 2)) != 0:
         a += [draw(st.sampled_from(["--format", "-f"])), val(["fasta", "fa", "msf", "clu", "clustal", "afa"], ["xyz", "", "FASTA", "m s f"])]
     for k in ("--gpo", "--gpe", "--tgpe"):
         if draw(st.integers(0, 3)) == 0:
@@ -234,8 +234,17 @@ def check_cli(case):
     if case.get("dangling"):
         args.append(case["dangling"])
     env = dict(runner.LEAK_ENV)
-    en = runner.run_cli(args, stdin=stdin, env=env, cpu=CPU)
     cl = ["cli", "out=" + case["out"]] + ["mode=" + f["mode"] for f in case["files"]]
+    # library leg on the same files: read -> run -> all three writers in one sanitised process (any status is fine,
+    # a sanitizer report or crash is not)
+    if paths:
+        lines = ["read 0 1 %s" % p for p in paths] + ["run 0 2 5 -1 -1 -1"] + \
+                ["write 0 %s %s" % (fmt, wd.path("." + fmt)) for fmt in ("fasta", "msf", "clu")] + ["free 0"]
+        pr = runner.run_probe(lines, cpu=CPU)
+        if pr.ended.bad:
+            return engine.violation({"what": "library read->run->write(fasta,msf,clu) ended with %s" % pr.ended.kind, **pr.ended.brief()},
+                                    classes=cl + ["lib_leg"], kind="hang" if pr.ended.kind == "hang" else "crash")
+    en = runner.run_cli(args, stdin=stdin, env=env, cpu=CPU)
     info = any(a in ("-h", "--help", "--version", "-v", "-V", "-showw", "--showw") for a in case["args"])
     if en.kind == "leak":
         # the property claims "no leak on the success path": find out which path this was
